@@ -31,6 +31,8 @@ struct FileInfo {
     last_write_ns: u128,
     closed_at_ns: Option<u128>,
     preexisting: bool,
+    /// inode: a name can be reused by a later file created within the same second
+    ino: u64,
 }
 
 struct Run {
@@ -56,6 +58,11 @@ struct Run {
     deletions: u64,
     /// sequence numbers found in files that are closed (they never change again)
     closed_cache: BTreeMap<String, Vec<u64>>,
+}
+
+fn ino_of(p: &Path) -> u64 {
+    use std::os::unix::fs::MetadataExt;
+    std::fs::metadata(p).map(|m| m.ino()).unwrap_or(0)
 }
 
 fn prefix_files(dir: &Path) -> Vec<String> {
@@ -121,6 +128,30 @@ impl Run {
     /// Diffs the directory listing against what is known; records creations and deletions.
     fn observe(&mut self, after_event: bool) -> Result<(), Outcome> {
         let files = prefix_files(&self.dir);
+        if std::env::var_os("VERIF_C19_DEBUG").is_some() {
+            let l: Vec<String> = files.iter().map(|f| format!("{f}:{}", std::fs::metadata(self.dir.join(f)).map(|m| m.len()).unwrap_or(0))).collect();
+            eprintln!("[c19] t={} after_event={after_event} sent={:?} listing={l:?} order={:?}", self.now_ns, self.sent.last(), self.order);
+        }
+        // a known name whose inode changed is a different file: the old one was deleted and
+        // the name reused (same second); it counts as gone first, then as newly created
+        let same_file = |me: &Self, f: &String| files.contains(f) && me.info.get(f).map(|i| i.ino == ino_of(&me.dir.join(f))).unwrap_or(false);
+        // deleted files: must be the oldest ones (a prefix of the creation order)
+        let present: Vec<bool> = self.order.iter().map(|f| same_file(self, f)).collect();
+        if let Some(first_present) = present.iter().position(|p| *p) {
+            if let Some(hole) = present[first_present..].iter().position(|p| !*p) {
+                return Err(Outcome::fail(
+                    "C19.deletes_oldest_first",
+                    format!("file {} was deleted although the older file {} survives; history: {:?}", self.order[first_present + hole], self.order[first_present], self.descr),
+                ));
+            }
+        }
+        let gone: Vec<String> = self.order.iter().zip(&present).filter(|(_, p)| !**p).map(|(f, _)| f.clone()).collect();
+        for g in gone {
+            self.order.retain(|f| f != &g);
+            self.info.remove(&g);
+            self.closed_cache.remove(&g);
+            self.deletions += 1;
+        }
         // new files
         for f in &files {
             if !self.info.contains_key(f) {
@@ -133,29 +164,11 @@ impl Run {
                     }
                 }
                 self.order.push(f.clone());
-                self.info.insert(f.clone(), FileInfo { created_at_ns: self.now_ns, last_write_ns: self.now_ns, closed_at_ns: None, preexisting: false });
+                self.info.insert(f.clone(), FileInfo { created_at_ns: self.now_ns, last_write_ns: self.now_ns, closed_at_ns: None, preexisting: false, ino: ino_of(&self.dir.join(f)) });
                 if after_event {
                     self.rotations += 1;
                 }
             }
-        }
-        // deleted files: must be the oldest ones (a prefix of the creation order)
-        let present: Vec<bool> = self.order.iter().map(|f| files.contains(f)).collect();
-        if let Some(first_present) = present.iter().position(|p| *p) {
-            if let Some(hole) = present[first_present..].iter().position(|p| !*p) {
-                return Err(Outcome::fail(
-                    "C19.deletes_oldest_first",
-                    format!("file {} was deleted although the older file {} survives; history: {:?}", self.order[first_present + hole], self.order[first_present], self.descr),
-                ));
-            }
-        }
-        let gone: Vec<String> = self.order.iter().filter(|f| !files.contains(f)).cloned().collect();
-        for g in gone {
-            self.order.retain(|f| f != &g);
-            self.info.remove(&g);
-            // (the name can be reused by a later file created within the same second)
-            self.closed_cache.remove(&g);
-            self.deletions += 1;
         }
         if after_event {
             if let Some(cur) = self.order.last() {
@@ -384,7 +397,7 @@ fn history(cfg: &RunCfg) -> Outcome {
         let f = std::fs::OpenOptions::new().write(true).open(dir.join(&name)).unwrap();
         f.set_modified(SystemTime::UNIX_EPOCH + Duration::from_nanos(t_ns as u64)).unwrap();
         run.order.push(name.clone());
-        run.info.insert(name.clone(), FileInfo { created_at_ns: t_ns, last_write_ns: t_ns, closed_at_ns: Some(t_ns), preexisting: true });
+        run.info.insert(name.clone(), FileInfo { created_at_ns: t_ns, last_write_ns: t_ns, closed_at_ns: Some(t_ns), preexisting: true, ino: ino_of(&dir.join(&name)) });
         run.descr.push(format!("pre-existing {name} {len} bytes, {age_s} s old"));
     }
     if npre > 0 {
@@ -409,6 +422,9 @@ fn history(cfg: &RunCfg) -> Outcome {
         Tier::Thorough => 100 + gen::below(if gen::ratio(1, 40) { 20_000 } else { 2500 }),
     };
     let big_share = gen::pick(&[2u32, 8, 30]);
+    // events larger than a whole file (and, with the smallest keep budget, than the budget):
+    // each must still get a file of its own, also when several arrive back to back
+    let huge_share = gen::pick(&[0u32, 0, 0, 3, 15]);
     let start_ns = run.now_ns;
     let mut seq = 0u64;
     for i in 0..nevents {
@@ -450,8 +466,17 @@ fn history(cfg: &RunCfg) -> Outcome {
             if let Err(o) = run.start_writer() {
                 return cleanup(run, o);
             }
+            // starting a writer takes time: the first event comes strictly later
+            run.now_ns += 1_000 + u128::from(gen::below(1000));
         }
-        let size = if gen::below(100) < big_share { 20_000 + gen::below(40_000) as usize } else { 50 + gen::below(800) as usize };
+        let size = if gen::below(100) < huge_share {
+            gen::count("probe.event_larger_than_a_file");
+            66_000 + gen::below(80_000) as usize
+        } else if gen::below(100) < big_share {
+            20_000 + gen::below(40_000) as usize
+        } else {
+            50 + gen::below(800) as usize
+        };
         seq += 1;
         if let Err(o) = run.send(seq, size) {
             return cleanup(run, o);
@@ -588,12 +613,12 @@ pub fn spec() -> PropertySpec {
     PropertySpec {
         id: "C19",
         level: "exploration",
-        rule: "The real LogFileWriter writer thread and real files in a per-run tmpfs directory, built with --cfg servlin_verif so that the thread reads a simulated clock and reports each finished event; the harness drives it in lock-step (set clock, send one event with a unique sequence number, wait for the thread). Histories of 30-430 events (quick) / 100-20000 (thorough), 50 B - 60 KiB each, over configurations max_write_bytes in {64 KiB, 128 KiB, 1 MiB} x max_keep_bytes in {1, 2, 3.5, 10} x that, keep-age off / 60 s .. 1 day, max_write_age 1 s .. 1 day; clock gaps of milliseconds, seconds, hours, days; 0-5 pre-existing files of earlier runs with set sizes and mtimes; unrelated look-alike files; restarts at random points: graceful, kill (thread abandoned), kill with a torn tail (newest file cut inside its last line). After EVERY event: creation order by diffing listings, oldest-first deletion, per-file size and age bounds, total size of all prefix files <= keep-size + one event, keep-age, unrelated files untouched; at every rotation and every 64 events: all surviving lines are whole, strictly consecutive and end at the newest accepted event. File-set stage: PrefixFileSet {new, push, delete_oldest, delete_older_than, delete_oldest_while_over_max_len} sequences with synthetic clocks against a reference model of the directory. non-trivial = at least one rotation; distinct = hash of history description.",
+        rule: "The real LogFileWriter writer thread and real files in a per-run tmpfs directory, built with --cfg servlin_verif so that the thread reads a simulated clock and reports each finished event; the harness drives it in lock-step (set clock, send one event with a unique sequence number, wait for the thread). Histories of 30-430 events (quick) / 100-20000 (thorough), 50 B - 60 KiB each (in some runs also 66-146 KB: larger than a 64 KiB file and than the smallest keep budget, singly and back to back), over configurations max_write_bytes in {64 KiB, 128 KiB, 1 MiB} x max_keep_bytes in {1, 2, 3.5, 10} x that, keep-age off / 60 s .. 1 day, max_write_age 1 s .. 1 day; clock gaps of milliseconds, seconds, hours, days; 0-5 pre-existing files of earlier runs with set sizes and mtimes; unrelated look-alike files; restarts at random points: graceful, kill (thread abandoned), kill with a torn tail (newest file cut inside its last line). After EVERY event: creation order by diffing listings, oldest-first deletion, per-file size and age bounds, total size of all prefix files <= keep-size + one event, keep-age, unrelated files untouched; at every rotation and every 64 events: all surviving lines are whole, strictly consecutive and end at the newest accepted event. File-set stage: PrefixFileSet {new, push, delete_oldest, delete_older_than, delete_oldest_while_over_max_len} sequences with synthetic clocks against a reference model of the directory. non-trivial = at least one rotation; distinct = hash of history description.",
         scenarios: vec![
             Scenario { name: "c19.history", property: "C19", func: history, runs_quick: 6_000, runs_thorough: 60_000, doc: "writer thread histories" },
             Scenario { name: "c19.file_set", property: "C19", func: file_set, runs_quick: 80_000, runs_thorough: 1_500_000, doc: "file-set API vs model" },
         ],
-        required_probes: vec!["probe.rotations", "probe.files_deleted", "probe.preexisting_files", "fault.graceful_restart", "fault.kill_restart", "fault.kill_restart_torn_tail"],
+        required_probes: vec!["probe.rotations", "probe.files_deleted", "probe.preexisting_files", "probe.event_larger_than_a_file", "fault.graceful_restart", "fault.kill_restart", "fault.kill_restart_torn_tail"],
         components: json!({
             "real": ["/repo/src/log/log_file_writer.rs, prefix_file_set.rs (with the guarded clock / progress hooks)", "the writer OS thread", "std::fs on tmpfs"],
             "simulated": ["the wall clock read by the writer (verif_hooks::now)", "the pacing of the writer thread (lock-step: one event at a time)", "file mtimes left by earlier runs (set explicitly)"],
